@@ -133,8 +133,14 @@ func SelfTest() error {
 
 // KeyWrap is RFC 3394 key wrap with the default IV.
 func KeyWrap(kek, plain []byte) []byte {
+	return KeyWrapIV(kek, plain, bytes.Repeat([]byte{0xA6}, 8))
+}
+
+// KeyWrapIV is the RFC 3394 wrapping process with a caller-chosen initial value (only the default
+// one makes the result an RFC 3394 key-wrap blob; others are used to build blobs that must be refused).
+func KeyWrapIV(kek, plain, iv []byte) []byte {
 	n := len(plain) / 8
-	a := bytes.Repeat([]byte{0xA6}, 8)
+	a := append([]byte(nil), iv...)
 	r := make([][]byte, n)
 	for i := range r {
 		r[i] = append([]byte(nil), plain[8*i:8*i+8]...)
